@@ -406,3 +406,38 @@ def plain_lines(t):
 def header_at_line_start(t):
     """every '# Legend:' in the text starts its line (a header in the middle of a line is outside the statements)"""
     return all(ln.startswith("# Legend:") for ln in t.split("\n") if "# Legend:" in ln)
+
+
+def rail_grid(r):
+    """two rails '+---+' with rows of two bars between them: the bars under the corners (a box), or one or both of them
+    somewhere else (inside, outside, different in every row), the lower rail the same, shorter, longer or moved - everything
+    a recogniser of "boxes" might mistake for one; characters - | + and blanks only"""
+    w, h, k = r.randint(0, 8), r.randint(1, 4), r.randint(0, 3)
+    top = " " * k + "+" + "-" * w + "+"
+    mode = r.choice(["box", "one_in", "both_in", "out", "wander", "swap_rail"])
+    rows = [top]
+    c1, c2 = k, k + w + 1
+    if mode == "one_in":
+        if r.random() < 0.5:
+            c1 = r.randint(k, max(k, c2 - 1))
+        else:
+            c2 = r.randint(min(c1 + 1, c2), c2)
+    elif mode == "both_in":
+        c1 = r.randint(k, k + w)
+        c2 = r.randint(c1 + 1, k + w + 1)
+    elif mode == "out":
+        c1, c2 = max(0, k - r.randint(0, 1)), k + w + 1 + r.randint(0, 1)
+    for _ in range(h):
+        a, b = c1, c2
+        if mode == "wander":
+            a = max(0, c1 + r.randint(-1, 1))
+            b = max(a + 1, c2 + r.randint(-1, 1))
+        row = [" "] * (max(b, k + w + 2) + 1)
+        row[a] = "|"
+        row[b] = "|"
+        rows.append("".join(row).rstrip())
+    bot = top
+    if mode == "swap_rail" or r.random() < 0.2:
+        bot = r.choice([" " * max(0, k + r.randint(-1, 1)) + "+" + "-" * max(0, w + r.randint(-1, 1)) + "+", top.replace("+", "-", 1), top])
+    rows.append(bot)
+    return "\n".join(rows)
